@@ -89,7 +89,7 @@ def doc_reaching(schema, path, g, kind):
 
 def run(ctx):
     thorough = ctx["tier"] == "thorough"
-    n = 3000 if thorough else 260
+    n = 3000 if thorough else 260 * ctx.get('scale', 1)
     rng = random.Random(ctx["seed"] + 16)
     g = Gen(ctx["seed"] + 160, normalization=False, nested_bias=True, of_rules=True)
     violations, samples = [], []
@@ -182,7 +182,7 @@ def run(ctx):
             return True
         except cerberus.SchemaError:
             return False
-    for i in range(200 if thorough else 40):
+    for i in range(200 if thorough else 40 * ctx.get('scale', 1)):
         kind = rng.choice(['check_with', 'coercer', 'setter'])
         prefix = {'check_with': '_check_with_', 'coercer': '_normalize_coerce_', 'setter': '_normalize_default_setter_'}[kind]
         rule = {'check_with': 'check_with', 'coercer': 'coerce', 'setter': 'default_setter'}[kind]
